@@ -199,7 +199,21 @@ def tie_of(c):
 
 
 def T(n):
-    return int(n) / TICK
+    """a time argument in one of the kinds of Duration.Type: float (half of the values), Fraction, a ratio string,
+    a RatioDuration or a DirectDuration object - chosen by the value itself, so that a case always replays the same"""
+    n = int(n)
+    k = (abs(n) // 3) % 10
+    if n < 0 or os.environ.get("VERIF_FLOAT_ARGS") == "1" or k < 5:
+        return n / TICK
+    if k == 5:
+        return Fraction(n, TICK)
+    if k == 6:
+        return f"{n}/{TICK}"
+    if k == 7:
+        return cp.RatioDuration(Fraction(n, TICK))
+    if k == 8:
+        return cp.DirectDuration(n / TICK)
+    return Fraction(n, TICK)
 
 
 def apply_op(t, op):
